@@ -209,6 +209,8 @@ pub fn json_parsers() -> Vec<Parser> {
         ("json:OrderId", p_json::<OrderId>),
         ("json:Side", p_json::<Side>),
         ("json:TimeInForce", p_json::<TimeInForce>),
+        ("json:PegReferenceType", p_json::<PegReferenceType>),
+        ("json:TransactionList", p_json::<TransactionList>),
         ("json:OrderType", p_json::<OrderType<()>>),
         ("json:OrderUpdate", p_json::<OrderUpdate>),
         ("json:Transaction", p_json::<Transaction>),
